@@ -436,6 +436,13 @@ def readFrames (g : R Val) (ge : R Nat) : Nat → Nat → Nat → R (List Frame)
       R.map (readFrames g ge lf prevframe (stack - frameSize)) fun rest =>
         (⟨if ff < 0 then ff + 2147483648 else ff, prevframe, pcdiff, func, env, slots⟩ : Frame) :: rest
 
+/-- `fiber->flags` as `unmarshal_one_fiber` stores it: the flags read from the image with the two image-only pseudo flags
+(`JANET_FIBER_FLAG_HASENV`, `JANET_FIBER_FLAG_HASCHILD`: "an environment table / a child fiber follows") cleared.  Which bits the
+current marsh.c clears on the way from `readint` to `fiber->flags = …` is regenerated as `Gen.MarshCode.fiberMemStripMask`
+(obligation `CodeObligations.fiber_wire_bits_stripped`). -/
+@[reducible] def fiberMemFlags (ff : Int) : Int :=
+  ff - (if hasFlag ff fiberHasEnv then fiberHasEnv else 0) - (if hasFlag ff fiberHasChild then fiberHasChild else 0)
+
 /-- body of `unmarshal_one_fiber` after the new fiber has been pushed on `st->lookup` -/
 def unmarshalFiberBody (g : R Val) (ge : R Nat) : R CObj :=
   R.bind R.int fun ff =>
@@ -448,7 +455,7 @@ def unmarshalFiberBody (g : R Val) (ge : R Nat) : R CObj :=
   R.bind (if hasFlag ff fiberHasEnv then R.map g some else R.pure none) fun env =>
   R.bind (if hasFlag ff fiberHasChild then R.map g some else R.pure none) fun child =>
   R.map g fun last =>
-    CObj.fiber (ff - (if hasFlag ff fiberHasEnv then fiberHasEnv else 0) - (if hasFlag ff fiberHasChild then fiberHasChild else 0))
+    CObj.fiber (fiberMemFlags ff)
       frame stackstart stacktop maxstack frames env child last
 
 /-- body of `unmarshal_one_def` after the new funcdef has been pushed on `lookup_defs`; `g` = `unmarshal_one(…, flags + 1)`,
